@@ -236,6 +236,7 @@ def specSteps (env : Env) : List Step → Body → Body
       specSteps env rest { b with db := v.db, flows := b.flows ++ v.flows, specified := b.specified && v.exact }
     else { b with accepted := false }
   | .fail _ :: _, b => { b with accepted := false }
+  | .fail1 _ :: _, b => { b with accepted := false }
   | .addCommit tag :: rest, b => specSteps env rest { b with ctx := { b.ctx with commitActions := b.ctx.commitActions ++ [tag] } }
   | .addPre tag fails :: rest, b => specSteps env rest { b with ctx := { b.ctx with preActions := b.ctx.preActions ++ [(tag, fails)] } }
   | .nestedBegin :: rest, b => specSteps env rest b
@@ -289,8 +290,10 @@ def specTx (env : Env) (db : Db) (prevCtx : Ctx) (tx : TxSpec) : SpecOut :=
   match tx.mode with
   | .update => specTxWith env true db ctx tx.body
   | .batch =>
+    -- the function is executed again: what fails only the first time (Step.fail1, Env.once) is spent, and
+    -- a second execution that is accepted commits and announces everything exactly once
     let a := specTxWith env true db ctx tx.body
-    if a.ok then a else specTxWith env true db a.ctx tx.body
+    if a.ok then a else specTxWith env.later true db a.ctx (laterBody tx.body)
 
 def specCase (env : Env) : List TxSpec → Db → Ctx → List SpecOut
   | [], _, _ => []
